@@ -104,6 +104,19 @@ func (r *Runner) checkpoint(quiescent bool) {
 		r.tr.mu.Unlock()
 	}
 	r.checkpoints++
+	if !quiescent && !r.noDump {
+		// the background shrinker may be running: a dump taken now could be torn between two of its
+		// transactions, so this step is judged by its reply only (Q) and the state relations wait for
+		// the next quiescent checkpoint
+		if r.tr != nil {
+			r.tr.mu.Lock()
+			r.tr.dirty = true
+			r.tr.mu.Unlock()
+		}
+		st := r.srv.VerifState()
+		fmt.Fprintf(r.w, "Q\nA %d %d 0\nE\n", st.Balloc.NumFree(), st.Ialloc.NumFree())
+		return
+	}
 	if clean && quiescent {
 		st := r.srv.VerifState()
 		fmt.Fprintf(r.w, "A %d %d %d\n", st.Balloc.NumFree(), st.Ialloc.NumFree(), b2i(quiescent))
@@ -238,6 +251,11 @@ func (r *Runner) Step(o Op) Reply {
 		return Reply{Kind: "st"}
 	case strings.HasPrefix(o.Proc, "autoidle:"):
 		r.autoIdle = o.Proc == "autoidle:1"
+		if r.tr != nil {
+			r.tr.mu.Lock()
+			r.tr.yield = !r.autoIdle
+			r.tr.mu.Unlock()
+		}
 		return Reply{Kind: "st"}
 	case o.Proc == "null":
 		r.srv.NFSPROC3_NULL()
@@ -256,7 +274,8 @@ func (r *Runner) Step(o Op) Reply {
 		r.tr.reset()
 	}
 	rep := r.execWatch(o, h, h2)
-	if r.tr != nil {
+	if r.tr != nil && r.autoIdle {
+		// (without the wait the background shrinker's transactions would be mixed into this call's events)
 		fmt.Fprintln(r.w, r.tr.line())
 	}
 	if rep.Kind == "handle" && rep.Code == 0 && o.Proc != "lookup" {
